@@ -1,6 +1,6 @@
 SPECIFICATION Spec
 CONSTANTS
-  MaxSteps = 4
+  MaxSteps = 2
   DevAvg = FALSE
   DevArr = FALSE
   DevStale = FALSE
@@ -8,6 +8,6 @@ CONSTANTS
   Disturbs = FALSE
   DevRows = FALSE
   DevInd = FALSE
-  DevDocInd = FALSE
-INVARIANTS LengthInv StepOK WitnessPrint ActionPrint
+  DevDocInd = TRUE
+INVARIANTS LengthInv StepOKModKnown
 CHECK_DEADLOCK FALSE
